@@ -7,7 +7,8 @@
    encoding; it is not satisfied by [PrimFloat.ltb] on all of [float] (NaN is incomparable to
    everything, -0 and +0 are incomparable and distinct) nor by [Qlt_bool]-style comparisons on
    unreduced fractions (1/2 and 2/4 are incomparable and distinct). *)
-From Coq Require Import Bool.
+From Coq Require Import Bool List.
+Import ListNotations.
 
 Record strict_total_order {W : Type} (ltb : W -> W -> bool) : Prop := {
   so_irrefl : forall a, ltb a a = false;
@@ -20,6 +21,14 @@ Record strict_total_order {W : Type} (ltb : W -> W -> bool) : Prop := {
 Definition leb {W} (ltb : W -> W -> bool) (a b : W) : bool := negb (ltb b a).
 Definition omax {W} (ltb : W -> W -> bool) (a b : W) : W := if ltb a b then b else a.
 Definition omin {W} (ltb : W -> W -> bool) (a b : W) : W := if ltb b a then b else a.
+
+(* largest arc weight along the consecutive pairs of [pi]; [zero] for a path with no arc.
+   The [W]-version of [Spec.Paths.pathmax]. *)
+Fixpoint pathmaxW {W} (ltb : W -> W -> bool) (w : nat -> nat -> W) (zero : W) (pi : list nat) : W :=
+  match pi with
+  | a :: ((b :: _) as t) => omax ltb (w a b) (pathmaxW ltb w zero t)
+  | _ => zero
+  end.
 
 Section Facts.
   Context {W : Type} (ltb : W -> W -> bool).
